@@ -41,6 +41,54 @@ impl<A: Accept> Accept for RawTlsAcceptor<A> {
 pub assume_specification<T, U, F: FnOnce(T) -> U> [std::task::Poll::<T>::map] (p: Poll<T>, f: F) -> (r: Poll<U>)
     requires p matches Poll::Ready(t) ==> f.requires((t,)),
     ensures match p { Poll::Ready(t) => (r matches Poll::Ready(u) && f.ensures((t,), u)), Poll::Pending => r is Pending };
-/// `AcceptorCore`: only named as the default type argument of `Acceptor<A = AcceptorCore>`
+#[verifier::external_type_specification]
 #[verifier::external_body]
-pub struct AcceptorCore { _p: PhantomData<u8> }
+pub struct ExIoError(std::io::Error);
+
+// ---- what `AcceptorCore` dispatches to: the three listeners of the `stream` feature, each as an `Accept` in the
+// trait vocabulary (each `poll_accept` is under contract in its own unit and vocabulary - tcpinfo: tcp.accept.*,
+// unixinfo: unix.accept.*, accept: acc.* for `DuplexIncoming`; here only the trait contract is used), and the streams they
+// hand out (`Braid` and its three `From` conversions are extracted from stream/core.rs in the unit)
+#[verifier::external_body]
+pub struct TcpListener { _p: PhantomData<u8> }
+#[verifier::external_body]
+pub struct UnixListener { _p: PhantomData<u8> }
+#[verifier::external_body]
+pub struct DuplexIncoming { _p: PhantomData<u8> }
+#[verifier::external_body]
+pub struct TcpStream { _p: PhantomData<u8> }
+#[verifier::external_body]
+pub struct UnixStream { _p: PhantomData<u8> }
+#[verifier::external_body]
+pub struct DuplexStream { _p: PhantomData<u8> }
+impl Accept for TcpListener {
+    type Conn = TcpStream;
+    type Error = std::io::Error;
+    uninterp spec fn accept_polls(&self) -> nat;
+    uninterp spec fn accept_outcome(&self) -> Poll<Result<Self::Conn, Self::Error>>;
+    #[verifier::external_body]
+    fn poll_accept(&mut self, cx: &mut Context<'_>) -> (r: Poll<Result<Self::Conn, Self::Error>>) { unimplemented!() }
+}
+impl Accept for UnixListener {
+    type Conn = UnixStream;
+    type Error = std::io::Error;
+    uninterp spec fn accept_polls(&self) -> nat;
+    uninterp spec fn accept_outcome(&self) -> Poll<Result<Self::Conn, Self::Error>>;
+    #[verifier::external_body]
+    fn poll_accept(&mut self, cx: &mut Context<'_>) -> (r: Poll<Result<Self::Conn, Self::Error>>) { unimplemented!() }
+}
+impl Accept for DuplexIncoming {
+    type Conn = DuplexStream;
+    type Error = std::io::Error;
+    uninterp spec fn accept_polls(&self) -> nat;
+    uninterp spec fn accept_outcome(&self) -> Poll<Result<Self::Conn, Self::Error>>;
+    #[verifier::external_body]
+    fn poll_accept(&mut self, cx: &mut Context<'_>) -> (r: Poll<Result<Self::Conn, Self::Error>>) { unimplemented!() }
+}
+/// `Poll<Result<T, E>>::map_ok` (std): `Ready(Ok(t))` -> `Ready(Ok(f(t)))`, everything else unchanged
+pub assume_specification<T, E, U, F: FnOnce(T) -> U> [std::task::Poll::<Result<T, E>>::map_ok] (p: Poll<Result<T, E>>, f: F) -> (r: Poll<Result<U, E>>)
+    requires p matches Poll::Ready(Ok(t)) ==> f.requires((t,)),
+    ensures match p {
+        Poll::Ready(Ok(t)) => (r matches Poll::Ready(Ok(u)) && f.ensures((t,), u)),
+        Poll::Ready(Err(e)) => r == Poll::<Result<U, E>>::Ready(Err(e)),
+        Poll::Pending => r is Pending };
